@@ -48,6 +48,7 @@ type FaultStore struct {
 	BeforeCall func(kind string, idx int)
 	Disabled bool // when true, faults are ignored (fault-free suffix) but calls still counted
 	CallLog []string
+	storms  []*Fault // kind-restricted storms (remaining count in N)
 	Locked  bool // CONC engine: bookkeeping is shared by task goroutines
 	mu      sync.Mutex
 }
@@ -55,6 +56,11 @@ type FaultStore struct {
 func NewFaultStore(inner litestream.ReplicaClient, faults []Fault) *FaultStore {
 	fs := &FaultStore{Inner: inner, Faults: map[int]Fault{}, Hit: map[string]int{}, Kinds: map[string]int{}, Arch: map[FileKey][]*ArchEntry{}}
 	for _, f := range faults {
+		if f.On != "" {
+			ff := f
+			fs.storms = append(fs.storms, &ff)
+			continue
+		}
 		fs.Faults[f.Call] = f
 	}
 	return fs
@@ -73,6 +79,13 @@ func (s *FaultStore) begin(kind string) (int, *Fault) {
 	}
 	if s.Disabled {
 		return idx, nil
+	}
+	for _, st := range s.storms {
+		if st.N > 0 && idx >= st.Call && st.On == kind {
+			st.N--
+			f := *st
+			return idx, &f
+		}
 	}
 	if f, ok := s.Faults[idx]; ok {
 		// fault kinds are assigned without knowing the call kind; map to the
